@@ -360,6 +360,34 @@ def run_case(case):
                 out["nontrivial"].append("%d/%d/%d" % (case["seed"], case["idx"], j))
             if j == 0:
                 out["sample"] = doc2
+            ref = fw.fn_reference
+            if (j % 10 == 3 and not bad and not ref.external and ref.module == "vf.ffuncs" and "." not in ref.function_name
+                    and hasattr(vf.ffuncs, ref.function_name)):
+                # the same document read while its function is not defined (yet) in its module - it reads as a reference to
+                # a function that lives elsewhere - and read again once the name is there: the second reading is the round trip
+                saved = getattr(vf.ffuncs, ref.function_name)
+                delattr(vf.ffuncs, ref.function_name)
+                try:
+                    try:
+                        MementoCodec.decode_memento(json.loads(text))
+                    except Exception as e:
+                        fail("decoding an encoded memento raises " + type(e).__name__,
+                             "%s: read while %s was not defined in its module: %r" % (label, ref.function_name, e))
+                finally:
+                    setattr(vf.ffuncs, ref.function_name, saved)
+                out["obs"]["documents_read_before_their_function_was_defined"] += 1
+                try:
+                    m3 = MementoCodec.decode_memento(json.loads(text))
+                    bad2 = compare(m, m3)
+                    # (the document's own function is there, with the recorded version: it reads as that function again)
+                    if m2.invocation_metadata.fn_reference_with_args.fn_reference.external is False and \
+                            m3.invocation_metadata.fn_reference_with_args.fn_reference.external is not False:
+                        bad2.append("function reference (reads as a function that lives elsewhere)")
+                except Exception as e:
+                    bad2 = ["decoding raises %r" % e]
+                if bad2:
+                    fail("round trip loses or changes: " + ", ".join(bad2),
+                         "%s: the document had been read once before %s was defined in its module" % (label, ref.function_name))
     out["obs"] = dict(out["obs"])
     out["sets"] = {k: sorted(v) for k, v in out["sets"].items()}
     return out
